@@ -280,6 +280,11 @@ class LocalFileStore(Store):
                     raise DDSException(
                         f"Requested to load path {path} but path {loc} does not exist"
                     )
+                if not os.path.islink(loc):
+                    # A directory of the data directory (it holds longer paths): not a committed path.
+                    raise DDSException(
+                        f"Requested to load path {path} but {loc} is not a committed path"
+                    )
                 rp = os.path.realpath(loc)
                 # The key is the last element of the path
                 key = PyHash(os.path.split(rp)[-1])
